@@ -386,8 +386,59 @@ def rewrite_work(item):
         pt.gzip = old_gzip
     try:
         res["truncates"] = (after == new)
+        # a crash INSIDE the writer while the path holds the earlier trace: the pickler stops half way (whatever else the writer
+        # did before - moving the old file aside, opening - has happened); the readers get the directory as it then is
+        crash_dir = os.path.join(d, "crash")
+        os.mkdir(crash_dir)
+        cpath = os.path.join(crash_dir, "trace.pkl.gz")
+        with open(cpath, "wb") as fh:
+            fh.write(old)
+
+        class HalfPickle(object):
+            def dump(self, obj, fh, *a, **k):
+                import pickle as _p
+
+                b = _p.dumps(obj, *a, **k)
+                fh.write(b[: len(b) // 2])
+                raise OSError(errno.ENOSPC, "No space left on device")
+
+            def __getattr__(self, name):
+                import pickle as _p
+
+                return getattr(_p, name)
+
+        old_pickle = pt.pickle
+        pt.gzip, pt.pickle = Mtime0(), HalfPickle()
+        try:
+            try:
+                pt.create_main_run_output(None, cpath, r_new)
+                res["problems"].append({"what": "the writer reported success although the pickler failed half way"})
+            except Exception:
+                pass
+        finally:
+            pt.gzip, pt.pickle = old_gzip, old_pickle
+        outdir2 = os.path.join(d, "out2")
+        os.mkdir(outdir2)
+        full_new = run_readers(fresh, outdir2)
+        left = open(cpath, "rb").read() if os.path.exists(cpath) else b""
+        # the failed write as the writer's own clean-up left it, and as a killed process would have left it (cut short at a few points)
+        cuts = [None] + sorted({0, 1, len(left) // 4, len(left) // 2, max(0, len(left) - 9), max(0, len(left) - 1)})
+        for P in cuts:
+            if P is not None:
+                with open(cpath, "wb") as fh:
+                    fh.write(left[:P])
+            got = run_readers(cpath, outdir2)
+            for name, r in got.items():
+                res["n"] += 1
+                if r[0] == "EXC":
+                    res["raised"] += 1
+                elif r[1] != full_new[name][1]:
+                    res["problems"].append({"what": "a write over an existing trace that stopped half way (file %s) leaves a directory from which reader %s produces results (files present: %r)" % (
+                        "as the writer left it" if P is None else "cut at byte %d of %d" % (P, len(left)), name, sorted(os.listdir(crash_dir)))})
+            if len(res["problems"]) >= 3:
+                break
         if after == new:
-            return res  # the crash states of such a writer are the byte prefixes enumerated above
+            return res  # the remaining crash states of such a writer are the byte prefixes enumerated above
         if not (len(after) >= len(new) and after[:len(new)] == new):
             res["problems"].append({"what": "a complete rewrite over an existing trace left neither the new stream nor the new stream followed by old bytes"})
             return res
